@@ -121,11 +121,16 @@ def interesting_ticks(rng: random.Random, tm: TempoMap, horizon: int, k: int) ->
 WORDS = ["solo", "soloend", "soloing", "section", "lyric", "phrase_start", "phrase_end", "idle", "play",
          "half_tempo", "x", "E", "N", "S", "2", "=", "a=b", "[tag]", "café", "テスト", "{", "}", "\"q\"",
          "don't", "0", "007", "B", "TS"]
+# what real charts carry in names, lyrics and section titles: printf/format-looking text, rich-text tags (Clone Hero renders them),
+# typographic quotes, escaped quotes, "Artist - Title" separators, HTML entities, shell/template sigils
+MARKUP = ["%", "%s", "%d", "100%", "%%", "%(x)s", "{0}", "{}", "{x}", "$", "${x}", "$1", "&", "&amp;", "<", ">", "<b>", "</b>", "<i>",
+          "<color=#00FF00>", "</color>", "<size=10>", "\u201c", "\u201d", "\u201e", "\u201f", "\u2018", "\u2019", "\u00ab", "\u00bb",
+          " - ", " \u2013 ", "\\\"", "\\n", "\\t", "\\\\", "|", "~", "^", "`", "@", "*", "!", "?", ":", "+", "_"]
 TEXT_ALPHABET = ["a", "b", "Z", "1", " ", " ", "\"", "=", "[", "]", "{", "}", "\\", "\t", "\u00a0", "\u3000", "\u00e9", "e\u0301", "\u212b",
-                 "\u00df", "\u4e16", "lyric", "section", "lyric ", "section ", "LYRIC ", "Section ", "-", "'", ",", ".", "E"]
+                 "\u00df", "\u4e16", "lyric", "section", "lyric ", "section ", "LYRIC ", "Section ", "-", "'", ",", ".", "E"] * 2 + MARKUP
 VALUE_ALPHABET = ["a", "b", "Q", "7", " ", "\"", "=", ",", "\t", "\u00e9", "\u4e16", "'", "-", ".", "(", ")", "\u00a0",
                   "e\u0301", "\u2126", "\u212b", "\uf900", "\u304b\u3099", "\u1100\u1161", "\ufb01",  # incl. text that is not NFC/NFKC-normalised
-                  "/", "//", " // ", "#", ";", "\\", "%", "{", "}", "[", "]"]
+                  "/", "//", " // ", "#", ";", "\\", "%", "{", "}", "[", "]"] * 2 + MARKUP
 
 
 def gen_word(rng: random.Random) -> str:
@@ -140,12 +145,15 @@ def gen_event_text(rng: random.Random, hostile: bool) -> tuple[str, str, str | N
     r = rng.random()
     if not hostile:
         if r < 0.4:
-            v = rng.choice(["Intro", "Verse 1", "Chorus", "Solo 1", "Bridge", "Outro", "Guitar Solo 2a"])
+            v = rng.choice(["Intro", "Verse 1", "Chorus", "Solo 1", "Bridge", "Outro", "Guitar Solo 2a", "100% Solo", "Solo <b>2</b>",
+                            "Verse \u201cA\u201d", "Pre-Chorus - Fast", "Q&A", "say \\\"hi\\\"", "{Bridge}", "Fill #3 (50%)"])
             return "section " + v, "section", v
         if r < 0.8:
-            v = rng.choice(["Hel-", "lo", "world", "I'm", "a", "syl-", "la-", "ble", "+", "to-", "night!"])
+            v = rng.choice(["Hel-", "lo", "world", "I'm", "a", "syl-", "la-", "ble", "+", "to-", "night!", "100%", "<i>oh</i>", "\u201cyeah\u201d",
+                            "say \\\"hi\\\"", "rock&roll", "$$$", "{x}", "%s"])
             return "lyric " + v, "lyric", v
-        v = rng.choice(["phrase_start", "phrase_end", "music_start", "end", "crowd_clap", "idle", "coda"])
+        v = rng.choice(["phrase_start", "phrase_end", "music_start", "end", "crowd_clap", "idle", "coda", "end", "music_end", "100%", "%d bars",
+                        "<b>", "a - b"])
         return v, "text", v
     body = "".join(rng.choice(TEXT_ALPHABET) for _ in range(rng.randint(0, 8)))
     if r < 0.3:
@@ -173,7 +181,9 @@ def classify_text(text: str) -> tuple[str, str, str | None]:
 def gen_string_value(rng: random.Random, hostile: bool) -> str:
     if not hostile:
         return rng.choice(["Song Name", "The Artist", "charter42", "Album (Deluxe)", ", 2018", "song.ogg", "guitar.ogg",
-                           "rock", "cd", "Motörhead", "テスト"])
+                           "rock", "cd", "Motörhead", "テスト", "Knights of Cydonia - Live at Wembley", "AC/DC - T.N.T.", "<color=#00FF00>Nick</color>",
+                           "<b>power</b> metal", "\u201cHeroes\u201d", "Die \u201eToten Hosen\u201c", "12\u201d Singles", "100% (Remix)", "R&B", "a - b",
+                           "Album <size=10>(Special Edition)</size>", "50%s off", "{0} - {1}", "C:\\songs\\x.ogg"])
     r = rng.random()
     if r < 0.2:
         f = rng.choice(list(PASCAL.values()))
